@@ -21,5 +21,11 @@ fi
 (cd "$S/repo" && diff -ru /repo/diskcache diskcache | head -40)
 cd "$S/verif" && VERIF_REPO="$S/repo" bin/check "$@"
 rc=$?
-for f in "$S"/verif/replays/*.json; do [ -f "$f" ] && { echo "--- $f"; head -c 1500 "$f"; echo; }; done
+for f in "$S"/verif/replays/*.json; do [ -f "$f" ] && { echo "--- $f"; python3 -c "
+import json,sys
+d=json.load(open(sys.argv[1]))
+print('kind=%s sig=%s broken=%s' % (d.get('kind'), d.get('sig'), d.get('broken_obligations')))
+print('what:', str(d.get('what'))[:700])
+print('case:', json.dumps(d.get('case', d.get('input')))[:500])
+" "$f"; }; done
 exit $rc
